@@ -310,7 +310,7 @@ func TestC15(t *testing.T) {
 		ev.Exhaustive("gate", true)
 	})
 
-	check(t, "registry", 6000, 20000, func(rt *rapid.T) {
+	check(t, "registry", 6000, 60000, func(rt *rapid.T) {
 		if rapid.IntRange(0, 9).Draw(rt, "unknownName") == 0 {
 			names := opset13.GetOpNames()
 			sort.Strings(names)
